@@ -56,12 +56,13 @@ pub fn resolution(w: &mut Ws, r: &Rendered) -> Result<(String, String), String> 
         let range = tok_range(r, i);
         let a = match refs.get_var_reference_decl(&fid, range) {
             Some(id) => match db.get_decl_index().get_decl(&id) {
-                Some(d) => show(r, d.is_local(), u32::from(d.get_position()) as usize),
+                Some(d) => show(r, d.is_local() || d.is_implicit_self(), u32::from(d.get_position()) as usize),
                 None => "?nodecl".into(),
             },
             None => "g".into(),
         };
         raw.push(format!("{pos}:{a}"));
+        let a = a.clone();
         let token = root
             .syntax()
             .token_at_offset(TextSize::new(*off as u32))
@@ -70,9 +71,15 @@ pub fn resolution(w: &mut Ws, r: &Rendered) -> Result<(String, String), String> 
         if token.text() != text || token.text_range() != range {
             return Err(format!("token mismatch at {off}: {:?} vs {:?}", token.text(), text));
         }
+        // `self` answers the receiver of the method (type level) and `...` is not a name token: for those
+        // two the semantic layer is not a scoping observation; only the reference index is compared
+        if text == "self" || text == "..." {
+            sem.push(format!("{pos}:{a}"));
+            continue;
+        }
         let b = match sm.find_decl(token.into(), SemanticDeclLevel::NoTrace) {
             Some(LuaSemanticDeclId::LuaDecl(id)) => match db.get_decl_index().get_decl(&id) {
-                Some(d) => show(r, d.is_local(), u32::from(d.get_position()) as usize),
+                Some(d) => show(r, d.is_local() || d.is_implicit_self(), u32::from(d.get_position()) as usize),
                 None => "?nodecl".into(),
             },
             Some(other) => format!("?{other:?}"),
